@@ -110,13 +110,11 @@ func TestVerifC17(t *testing.T) {
 		{"empty conntrack, every tuple in the cache", "empty", "all"},
 	}
 
-	protos := []uint8{firewall.ProtoTCP, firewall.ProtoICMP}
-	ports := [][2]uint16{{80, 1000}}
-	frags := []bool{false}
+	protos := []uint8{firewall.ProtoTCP, firewall.ProtoUDP, firewall.ProtoICMP, firewall.ProtoICMPv6, 47}
+	ports := [][2]uint16{{80, 1000}, {1000, 80}}
+	frags := []bool{false, true}
 	if c.Thorough() {
-		protos = []uint8{firewall.ProtoTCP, firewall.ProtoUDP, firewall.ProtoICMP, firewall.ProtoICMPv6, 47}
-		ports = [][2]uint16{{80, 1000}, {1000, 80}, {0, 0}}
-		frags = []bool{false, true}
+		ports = append(ports, [2]uint16{0, 0})
 	}
 	var probes []c16Probe
 	for _, ra := range universe {
@@ -247,8 +245,8 @@ func TestVerifC17(t *testing.T) {
 					if err == ErrInvalidRemoteIP || err == ErrPeerRejected || err == ErrInvalidLocalIP {
 						r.shapeDrop[i]++
 					}
-					if rOK && lOK && it.rs == 0 {
-						r.authRefused++ // informational (C16's subject): authentic packet refused under allow-everything
+					if rOK && lOK && it.rs == 0 && !pr.Pkt.RemoteAddr.Is4In6() && !pr.Pkt.LocalAddr.Is4In6() {
+						r.authRefused++ // informational (C16's subject): authentic (non-mapped) packet refused under allow-everything
 					}
 				}
 			}
@@ -290,7 +288,7 @@ func TestVerifC17(t *testing.T) {
 	c.Set("rule", "one evaluation = (node certificate, rule set, conntrack/cache state, peer certificate, packet, direction), each enumerated once (product of duplicate-free lists). Non-trivial = Drop returned nil, i.e. the antecedent of the property holds and both addresses are compared with the certificates; the other evaluations are refusals (always acceptable for this property).")
 	c.Set("passed", pass)
 	c.Set("refused", evals-pass)
-	c.Set("authentic_but_refused_under_allow_everything", authenticRefused)
+	c.Set("authentic_unmapped_but_refused_under_allow_everything", authenticRefused)
 	c.Set("passes_per_peer_shape", perShapePass)
 	c.Set("authentic_packets_per_peer_shape", perShapeAuth)
 
